@@ -2,6 +2,7 @@ import QipVerif.Lemmas.NoiseGen
 import QipVerif.Lemmas.NoiseKron
 import QipVerif.Lemmas.NoiseReg
 import QipVerif.Lemmas.NoiseKraus3
+import QipVerif.Lemmas.NoiseDeriv
 /-!
 # C15 — T1/T2 decoherence has exactly the specified rates and keeps states physical
 
@@ -245,6 +246,16 @@ at `0`.  `IsDensity ρ`: `ρ.PosSemidef` (Mathlib; includes Hermitian) and `ρ.t
 `Admissible t1 t2` (each `Option Frac`): the given times are positive and `t2 ≤ 2·t1` if both are
 given.  `popRate t1 = 1/t1` (0 without t1), `cohRate t1 t2 = 1/t2` (`1/(2 t1)` without t2).
 `relaxSol2 γ Γ ρ₀ t = [[ρ₀₀₀ + (1 − e^{−γt}) ρ₀₁₁, e^{−Γt} ρ₀₀₁], [e^{−Γt} ρ₀₁₀, e^{−γt} ρ₀₁₁]]`. -/
+
+section
+attribute [local instance] Matrix.normedAddCommGroup Matrix.normedSpace
+/-- `Solves L ρ` is exactly: the matrix-valued function `ρ` has derivative `L (ρ t)` at every `t`
+(`HasDerivAt` in the normed space of matrices with the entrywise sup norm; the space is
+finite-dimensional, so any norm gives the same derivative) -/
+theorem solves_iff_matrix_derivative {n : Type} [Fintype n] (L : Matrix n n ℂ → Matrix n n ℂ)
+    (ρ : ℝ → Matrix n n ℂ) : Solves L ρ ↔ ∀ t, HasDerivAt ρ (L (ρ t)) t :=
+  solves_iff_hasDerivAt L ρ
+end
 
 /-- **Qubit, explicit solution.**  For every admissible `(t1, t2)` — both given with `0 < t2 ≤ 2·t1`
 (boundary included), t1 only, t2 only — the repaired code accepts, and for every initial 2×2 matrix
